@@ -83,7 +83,48 @@ fn determinism_case(cfg: &Config, tmp: &Path, idx: u64, r: &mut Rng, st: &mut St
     let d = tmp.join(format!("d{idx}"));
     std::fs::create_dir_all(&d).unwrap();
     let mut runs: Vec<(String, Vec<String>, bool)> = Vec::new(); // (label, args, has out dir)
-    match r.below(4) {
+    match r.below(5) {
+        4 => {
+            // large tasks: 18-40 rules and constraints over many public predicates, some of them
+            // much more expensive to translate and simplify than others (work that is spread
+            // over threads or kept in hashed collections shows in the order of the output)
+            let n = 18 + r.upto(23);
+            let np = 6 + r.upto(10);
+            let mut rules: Vec<String> = Vec::new();
+            for i in 0..n {
+                let h = r.upto(np);
+                let b = r.upto(np);
+                let c = r.upto(np);
+                rules.push(match r.below(6) {
+                    0 => format!(":- p{h}(X), X > {}.", r.range(3, 9)),
+                    1 => format!("p{h}(X) :- in(X), not p{b}(X)."),
+                    2 => format!("p{h}(X+{}) :- p{b}(X), X = 0..{}, Y = X*X+{i}, Y != {}.", r.range(1, 3), r.range(2, 6), r.range(0, 9)),
+                    3 => format!("{{p{h}(X)}} :- in(X), p{b}(X), not not p{c}(X)."),
+                    4 => format!(":- p{h}(X), p{b}(Y), X = Y+{}, X*Y > {}, not in(X+Y).", r.range(0, 3), r.range(0, 20)),
+                    _ => format!("p{h}(X) :- in(X), X != {}.", r.range(0, 5)),
+                });
+            }
+            let left = rules.join("\n");
+            let right = rewrite_program(r, &left);
+            let mut ug = vec!["input: in/1.".to_string()];
+            for i in 0..np {
+                ug.push(format!("output: p{i}/1."));
+            }
+            r.shuffle(&mut ug);
+            std::fs::write(d.join("a.1.lp"), &left).unwrap();
+            std::fs::write(d.join("a.2.lp"), &right).unwrap();
+            std::fs::write(d.join("a.ug"), ug.join("\n")).unwrap();
+            let flags = Flags::random(r);
+            let mut args: Vec<String> = vec!["verify".into(), "--equivalence".into(), "external".into(), "--no-proof-search".into(), "--save-problems".into(), "out".into(), "--bypass-tightness".into()];
+            args.extend(flags.cli_args());
+            args.extend(["a.1.lp".to_string(), "a.2.lp".to_string(), "a.ug".to_string()]);
+            runs.push(("verify-external-large".into(), args, true));
+            let mut args: Vec<String> = vec!["verify".into(), "--equivalence".into(), "strong".into(), "--no-proof-search".into(), "--save-problems".into(), "out".into()];
+            args.extend(flags.cli_args());
+            args.extend(["a.1.lp".to_string(), "a.2.lp".to_string()]);
+            runs.push(("verify-strong-large".into(), args, true));
+            st.inc("large_tasks");
+        }
         0 => {
             let mut o = ProgOpts::default();
             o.safe = r.chance(1, 2);
@@ -160,6 +201,10 @@ fn determinism_case(cfg: &Config, tmp: &Path, idx: u64, r: &mut Rng, st: &mut St
         if observed.len() == 3 {
             st.inc("repeated_run_comparisons");
             st.inc(&format!("repeated_run_comparisons_{}", label.split('-').next().unwrap()));
+            if label.ends_with("-large") && observed[0].0 == Some(0) && !observed[0].3.is_empty() {
+                st.inc("large_tasks_accepted_with_problems_written");
+                st.max("max_problem_files_of_a_large_task", observed[0].3.len() as u64);
+            }
             if observed[0] != observed[1] || observed[1] != observed[2] {
                 st.eval(None);
                 let mut files = J::obj();
